@@ -115,6 +115,9 @@ def write_replay(pid, job, viol):
     payload = {"property": pid, "module": job["module"], "factory": job["factory"],
                "params": job.get("params", {}), "values": viol["values"],
                "obligation": viol["obligation"], "info": viol.get("info"), "notes": viol.get("notes")}
+    if viol.get("use_history"):
+        payload["history"] = viol.get("history", [])
+        payload["note"] = "history-dependent: the listed inputs are run first, in order, in the same fresh interpreter"
     blob = json.dumps(payload, sort_keys=True, default=str)
     sha = hashlib.sha1(blob.encode()).hexdigest()[:12]
     d = os.path.join(VERIF, "evidence", "replays")
@@ -186,6 +189,8 @@ def run_check(pid, tier, jobs, *, bounds, assumptions, stubs=(), outside=(), exp
         for v in r["violations"]:
             v["_job"] = r["job"]
             violations.append(v)
+        # try violations of different jobs first when confirming
+
         for k, n in r["unsupported_reasons"].items():
             unsupported_reasons[k] = unsupported_reasons.get(k, 0) + n
         for k, n in r["extra"].items():
@@ -202,10 +207,17 @@ def run_check(pid, tier, jobs, *, bounds, assumptions, stubs=(), outside=(), exp
         if k is not None:
             known_hits.setdefault(k["id"], [k, 0])[1] += 1
             continue
-        if len(reported) >= 3:
+        if len(reported) >= 3 or unconfirmed >= 12:
             continue
         path = write_replay(pid, v["_job"], v)
         ok, out = confirm_fresh(path)
+        if not ok and v.get("history"):
+            # a result that depends on what the process did before: replay the job's earlier inputs too
+            v["use_history"] = True
+            path = write_replay(pid, v["_job"], v)
+            ok, out = confirm_fresh(path)
+            if ok:
+                v["obligation"] += " [history-dependent: needs the earlier calls of the replay file]"
         if ok:
             reported.append((path, v))
         else:
